@@ -13,7 +13,7 @@ TECHNIQUE = ("runtime monitoring of the real repair_dna on enumerated edit fault
              "x every edit kind x every replacement nucleotide is injected, and the returned candidates / detected-error count "
              "are compared with a walk oracle and membership of the original strand")
 LEVEL_TEXT = ("Exhaustive single-edit enumeration per generated walk (every position in [k, n-2k) x 3 substitutions, 4 insertions, "
-              "1 deletion), sampled multi-edit sets (2-3 edits at the minimal spacing 3k+2 and wider), with and without the check, "
+              "1 deletion), densely sampled multi-edit sets (70+ sets of 2-3 edits per walk at the minimal spacing 3k+2 and wider), with and without the check, "
               "k = 1..4 (5 thorough). Held on all of them; floors on detected == |E| per k, multi-edit cases and every detection "
               "delay 0..k-1.")
 LEVEL_NOTE = ("Graphs come from the library's own generator (as the property states). heap_size = 1e6 is unrestrictive by "
@@ -54,14 +54,14 @@ def generate(ctx):
                 continue
             yield "single_edits", dict(gcase, start=int(start), walk=w, check=rng.choice([0, 0, 3, 6]))
             n = len(w)
-            for _m in range(ctx.pick(6, 10)):
-                m = rng.choice([2, 2, 3])
+            for _m in range(ctx.pick(70, 150)):
+                m = rng.choice([2, 2, 2, 3])
                 pos = _positions(rng, k, n - 2 * k, m, 3 * k + 2)
                 if pos is None:
                     continue
                 edits = []
                 for p in pos:
-                    kind = rng.choice("SSID")
+                    kind = rng.choice("SSSSID")
                     if kind == "S":
                         edits.append(["S", p, rng.choice([c for c in "ACGT" if c != w[p]])])
                     elif kind == "I":
@@ -167,8 +167,8 @@ def floors(agg, tier):
         for d in range(k):
             if c.get("k=%d|detection delay %d" % (k, d), 0) < 5:
                 out.append("k=%d: detection delay %d observed %d < 5" % (k, d, c.get("k=%d|detection delay %d" % (k, d), 0)))
-    if c.get("multi-edit|detected == |E|", 0) < 50:
-        out.append("multi-edit sets with detected == |E| observed %d < 50" % c.get("multi-edit|detected == |E|", 0))
+    if c.get("multi-edit|detected == |E|", 0) < 3000:
+        out.append("multi-edit sets with detected == |E| observed %d < 3000" % c.get("multi-edit|detected == |E|", 0))
     for name, need in (("has_indel=False", 200), ("check|supplied", 200), ("edit|I detected", 200), ("edit|D detected", 100)):
         if c.get(name, 0) < need:
             out.append("%s observed %d < %d" % (name, c.get(name, 0), need))
